@@ -192,6 +192,8 @@ def lifeScript (l : VRing Int) (n : Nat) : List Char → Nat → Option (VRing I
     | 'u' | 'U' => (l.push (k : Int)).bind fun l' => lifeScript l' n rest (k + 1)
     | 'o' | 'O' => (l.pop 0).bind fun l' => lifeScript l' n rest k
     | 'a' => lifeScript l.pushSelf n rest k
+    | 'e' => l.emplaceSelf.bind fun l' => lifeScript l' n rest k   -- emplace(head_place())
+    | 'x' => l.pushThrow.bind fun l' => lifeScript l' n rest k     -- push whose copy constructor throws
     | 'c' => (VRing.clear 0 (l.t.r.size.toNat + 1) l).bind fun l' => lifeScript l' n rest k
     | 'z' | 'M' => lifeScript (VRing.resize 0 l n) n rest k   -- M: the elements die with the moved-to object
     | 'y' => lifeScript (VRing.copyAndDrop 0 l) n rest k
@@ -203,6 +205,34 @@ def lifeCount (n : Nat) (script : String) : String :=
   match lifeScript (VRing.mk' 0 n) n (if script == "-" then [] else script.toList) 0 with
   | some l => s!"{l.overLive} {l.deadDtor} {l.deadRead} {l.ctor} {l.dtor}"
   | none => "fault"
+
+/-- `arr <n> <script>`: `unbounded_array<T>(n)` under fill / clear / self-assignment / assignment from an
+array `{1..M}` / resize / begin-end; "<size>:<elements>" after every token, then the ledger after destruction -/
+def arrState (a : UArr Int) : String :=
+  s!"{a.data.length}:" ++ (if a.data.isEmpty then "-" else ",".intercalate (a.data.map toString))
+
+def arrScript (n : Nat) (toks : List String) : String :=
+  let rec go (a : UArr Int) (acc : List String) : List String → String
+    | [] =>
+      let f := a.invalidate
+      ";".intercalate acc.reverse ++ s!" | {f.ctor} {f.dtor} {f.deadDtor} {f.deadAssign}"
+    | tk :: rest =>
+      let k := ((tk.drop 1).toNat?).getD 0
+      let a' : Option (UArr Int) :=
+        if tk.startsWith "f" then a.fill (k : Int)
+        else if tk == "c" then some a.clear
+        else if tk == "s" then some (a.assign none)
+        else if tk.startsWith "g" then
+          -- the source array y(k) of the harness: k elements constructed, k destroyed at the end of the step
+          let r := a.assign (some ((List.range k).map fun i => ((i + 1 : Nat) : Int)))
+          some { r with ctor := r.ctor + k, dtor := r.dtor + k }
+        else if tk.startsWith "z" then some (a.resize 0 k)
+        else if tk == "b" then some a
+        else none
+      match a' with
+      | none => "fault"
+      | some a' => go a' (arrState a' :: acc) rest
+  go (UArr.mk' 0 n) [] toks
 
 /-- widths and signedness of the index / size / counter types the model embeds:
 `ring_head` fields `unsigned int` (BitVec 32), `ring_counter` fields `int`
@@ -328,6 +358,14 @@ def stepLine (s : St) (line : String) : St × String :=
   | ["lifecount", n, script] =>
       match n.toNat? with
       | some k => (s, lifeCount k script)
+      | none => (s, "bad-op")
+  | ["lifeviol", n, script] =>
+      match n.toNat? with
+      | some k => (s, lifeCount k script)
+      | none => (s, "bad-op")
+  | ["arr", n, script] =>
+      match n.toNat? with
+      | some k => (s, arrScript k (script.splitOn ","))
       | none => (s, "bad-op")
   | "lifeprobe" :: _ => (s, "-")   -- oracle-only operation: object lifetime is not modelled
   | "reset" :: "longrun" :: _ => (.none, "-")     -- oracle-only operation: 300 KiB through one ring
